@@ -192,5 +192,22 @@ func RemoveAll(repo repository.ClockedRepo) error {
 			return err
 		}
 	}
+	// identities that were fetched but never merged only exist as remote-tracking refs
+	remotes, err := repo.GetRemotes()
+	if err != nil {
+		return err
+	}
+	for remote := range remotes {
+		refs, err := repo.ListRefs(fmt.Sprintf(identityRemoteRefPattern, remote))
+		if err != nil {
+			return err
+		}
+		for _, ref := range refs {
+			err = repo.RemoveRef(ref)
+			if err != nil {
+				return err
+			}
+		}
+	}
 	return nil
 }
